@@ -121,6 +121,7 @@ func main() {
 	genUpstream()
 	genDiscovery()
 	genConfig()
+	genCache()
 	if forProp == "" || forProp == "C15" {
 		genLockset()
 	}
